@@ -180,6 +180,7 @@ def run(tier, seed, replay=None):
     relative_resolution(chk)
     names_in_declarations(chk, tier)
     identifiers_on_the_command_line(chk, tier)
+    where_from_inside_a_task(chk)
     chk.coverage["distribution"]["length"] = {str(k): v for k, v in sorted(lens.items())}
 
     if chk.coq.model_ok:
@@ -279,6 +280,43 @@ def identifiers_on_the_command_line(chk, tier):
                 chk.violation("impl-violation", "`cond %s %r` was %s, the documented identifier grammar %s the string" % (" ".join(argv[:-1]), s, "accepted" if accepted else "rejected", "accepts" if want else "rejects"),
                               {"input": {"part": "cli-identifiers", "string": s, "argv": argv}, "impl_observation": {"exit": r.code, "stderr": implrun.strip_ansi(r.err)[-300:]}, "oracle_verdict": bool(want)},
                               match_key={"cli-identifier": argv[0]}, size=len(s))
+
+
+def where_from_inside_a_task(chk):
+    """`cond where -f X` (conductor.lib.where) answered from INSIDE a running task -- the process has inherited that task's
+    COND_NAME / COND_OUT -- must be what a plain shell gets, for every X; in particular same-named tasks of different
+    packages (//foo:build, //bar:build, //:build) keep their own, pairwise different, locations."""
+    import implrun
+
+    ids = ["//foo:build", "//bar:build", "//:build"]
+    files = {"COND": 'run_command(name="build", run="echo root > $COND_OUT/o")\ngroup(name="all", deps=["//foo:build", "//bar:build", ":build"])\n',
+             "foo/COND": 'run_command(name="build", run="echo foo > $COND_OUT/o")\n', "bar/COND": 'run_experiment(name="build", run="echo bar > $COND_OUT/o")\n'}
+    root = implrun.make_project(files)
+    r0 = implrun.run_cond(["run", "//:all"], root, timeout=60)
+    if r0.code != 0:
+        chk.violation("correspondence", "harness: where_from_inside_a_task: the project did not run: %s" % implrun.strip_ansi(r0.out + r0.err)[-300:], {"theorem_or_tie": "scenario set-up"}, found_input=False)
+        return
+    plain = {x: implrun.run_cond(["where", "-f", x], root, timeout=60) for x in ids}
+    answers = {x: (r.code, r.out.strip()) for x, r in plain.items()}
+    if len({a for a in answers.values()}) != len(ids) or any(c != 0 for c, _ in answers.values()):
+        chk.violation("impl-violation", "different identifiers do not have pairwise different locations: %r" % answers,
+                      {"input": {"part": "where-inside-task", "files": files}, "impl_observation": answers}, match_key={"where": "plain"}, size=3)
+    for inside in ids:
+        code, loc = answers[inside]
+        if code != 0 or not loc:
+            continue
+        env = {"COND_NAME": "build", "COND_OUT": loc, "COND_DEPS": ""}
+        for x in ids:
+            r = implrun.run_cond(["where", "-f", x], root, env=env, timeout=60)
+            chk.coverage["evaluations"] += 1
+            chk.count("where-inside-task", "asked")
+            if (r.code, r.out.strip()) != answers[x]:
+                chk.violation("impl-violation", "`cond where -f %s` answers %r from inside the running task %s (COND_NAME=build, COND_OUT=%s) but %r from a shell"
+                              % (x, (r.code, r.out.strip()), inside, loc, answers[x]),
+                              {"input": {"part": "where-inside-task", "files": files, "inside": inside, "asked": x, "env": env}, "impl_observation": {"inside": [r.code, r.out.strip()], "shell": list(answers[x])},
+                               "oracle_verdict": "the location of a task does not depend on who asks"}, match_key={"where": "inside-task"}, size=3)
+            else:
+                chk.coverage["traces_validated_against_impl"] = chk.coverage.get("traces_validated_against_impl", 0) + 1
 
 
 def relative_resolution(chk):
